@@ -486,6 +486,16 @@ func (obj *Flavor) LoadForm() slip.Object {
 	for i, k := range keys {
 		ksym := slip.Symbol(k)
 		if v := obj.defaultVars[k]; v != nil {
+			// The default is a form that is evaluated so a symbol or list
+			// value has to be quoted.
+			switch tv := v.(type) {
+			case slip.Symbol:
+				if 0 < len(tv) && tv[0] != ':' {
+					v = slip.List{slip.Symbol("quote"), tv}
+				}
+			case slip.List:
+				v = slip.List{slip.Symbol("quote"), tv}
+			}
 			ivs[i] = slip.List{ksym, v}
 		} else {
 			ivs[i] = ksym
